@@ -51,6 +51,12 @@ Verdict(rec) ==
         LexLeq(a1, a2, b1, b2) == a1 < b1 \/ (a1 = b1 /\ a2 <= b2)
         n     == Cardinality(U)
         OptV  == IF n <= 5 THEN Opt(C, U) ELSE OptDP(C, U)
+        \* beyond 8 elements the subset DP is out of reach for TLC: the optimum is bracketed.  UpperB = best score
+        \* among the unified input rankings and the all-tied ranking (a returned ranking scoring more is certainly not
+        \* optimal); LowerB = sum over pairs of the cheapest placement (a ranking reaching it is certainly optimal)
+        BigN   == n > 8
+        UpperB == Min({Sc(Unify(D[r], U)) : r \in DOMAIN D} \cup {Sc(AllTied(U))})
+        LowerB == LET f(p) == Min3(C[p][1], C[p][2], C[p][3]) IN MapThenSumSet(f, Pairs(U))
         Complete == IsCompleteDS(D)
         \* ------------------------------------------------------------ C03
         V03 == IF ~Got THEN <<"skip", rec.out>>
@@ -73,6 +79,9 @@ Verdict(rec) ==
                     (IF rec.env = "nocplex" /\ IsSelector(rec.cfg) THEN <<"viol", "C05:selector-fails-without-cplex">>
                      ELSE <<"skip", rec.out>>)
                ELSE IF ~WF THEN <<"viol", "C05:malformed">>
+               ELSE IF BigN THEN (IF \E k \in DOMAIN K : Sc(K[k]) > UpperB THEN <<"viol", "C05:not-optimal">>
+                                  ELSE IF \A k \in DOMAIN K : Sc(K[k]) = LowerB THEN <<"ok", "optimal-by-lower-bound">>
+                                  ELSE <<"skip", "optimum-not-computed-beyond-8-elements">>)
                ELSE IF \E k \in DOMAIN K : Sc(K[k]) # OptV THEN <<"viol", "C05:not-optimal">>
                ELSE IF rec.cfg = "ExactCplex(noopt)" /\ rec.flag = 0 /\ n <= 5
                        /\ Range(K) # OptSet(C, U) THEN <<"viol", "C05:all-optimal-set">>
@@ -86,6 +95,9 @@ Verdict(rec) ==
         V06 == IF ~Got THEN <<"skip", rec.out>>
                ELSE IF ~WF /\ IsParCons(rec.cfg) THEN <<"viol", "C06:consensus-respects-partition">>
                ELSE IF ~WF THEN <<"skip", "malformed-consensus">>
+               ELSE IF BigN THEN (IF rec.opt = 1 /\ \E k \in DOMAIN K : Sc(K[k]) > UpperB
+                                  THEN <<"viol", "C06:flag-not-optimal">>
+                                  ELSE <<"skip", "optimum-not-computed-beyond-8-elements">>)
                ELSE IF rec.opt = 1 /\ \E k \in DOMAIN K : Sc(K[k]) # OptV THEN <<"viol", "C06:flag-not-optimal">>
                ELSE IF ~IsParCons(rec.cfg) THEN <<"ok", "flag">>
                ELSE IF ~IsPartition(WP) THEN <<"viol", "C06:weak-partition">>
